@@ -106,7 +106,7 @@ let judge op args got =
                else Accept (Printf.sprintf "ok %s val %s" (ishape_str signed_ sh) (hx value), hx value,
                             ishape_cls sh ^ "/" ^ bits_cls m, canon)) in
         let spec = expect_of (int_tokens_spec signed_ toks) and asis = expect_of (int_tokens_asis signed_ toks) in
-        verdict ~extra:("path=" ^ (if int_laxb toks then "lax" else "strict")) spec asis "int-tokens-outside-grammar"
+        verdict spec asis "int-tokens-outside-grammar"
       | "rat" ->
         let expect_of r = match r with
           | None -> Reject
@@ -133,24 +133,17 @@ let judge op args got =
         let base = Zar.of_int (if dec then 10 else 2) in
         let fsign, canon =
           if dec then (None, text_of_bytes (join_tokens toks))
-          else let s, body = fbin_text_asis toks in (Some s, (if s = Negative then "-" else "") ^ text_of_bytes body) in
+          else let s, body = fbin_text_split toks in (Some s, (if s = Negative then "-" else "") ^ text_of_bytes body) in
         if case_rt <> Some canon then fail "case-run-time-text-is-not-the-text-of-the-tokens"
         else begin
           (* reference: what the run-time parser makes of the same text *)
           let rec after key = function [] -> [] | x :: r -> if x = key then r else after key r in
           let rt = after "rt" tail in
-          (* fbig! strips one sign itself and asserts that what the parser returns is positive *)
-          let double_minus = (not dec) && (match fbin_text_asis toks with (_, c :: _) -> Zar.to_int c = 45 | _ -> false) in
-          let double_plus = (not dec) && (match fbin_text_asis toks with (_, c :: _) -> Zar.to_int c = 43 | _ -> false) in
+          (* fbig! strips one sign itself; a second one is outside the grammar (model: fbin_text_asis = None) *)
+          let second_sign = (not dec) && fbin_text_asis toks = None && fbin_text_spec toks = None in
           match rt with
-          | _ when double_plus ->
-            (* a second sign is outside the grammar; the macro hands "+digits" to the parser, which takes it *)
-            if is_reject then pass ~extra:"cls=reject" ()
-            else (match rt, after "val" tail with
-                  | [ sig_; e; _ ], a :: b :: _ when a <> sig_ || b <> e -> fail "reject"
-                  | _ -> known "fbin-double-sign" "reject")
+          | _ when second_sign -> if is_reject then pass ~extra:"cls=reject" () else fail "reject"
           | [ "err" ] -> if is_reject then pass ~extra:"cls=reject" () else fail "reject"
-          | [ _; _; _ ] when double_minus -> if is_reject then pass ~extra:"cls=reject" () else fail "reject"
           | [ sig_; e; p ] ->
             let sigz = z sig_ and ez = z e and pz = z p in
             let s = (match fsign with Some s -> s | None -> if Zar.sign sigz < 0 then Negative else Positive) in
